@@ -419,6 +419,9 @@ def explore_instance(ctx, fam, inst, tier, seed, known_active):
     budget = fam.time_budget.get(tier, 150)
     if os.environ.get('VF_TIME_SCALE'):
         budget *= float(os.environ['VF_TIME_SCALE'])
+    gd = getattr(fam, '_global_deadline', None)     # wall-clock cap of the whole check (run.run_llir): what is not explored by then is inconclusive
+    if gd is not None:
+        budget = min(budget, max(0.0, gd - t0))
     confirmed_known = {}    # known id -> KnownPred (already confirmed by a replay in this instance)
     split = inst.get('_split') if isinstance(inst, dict) else None   # [k, bits]: this task owns the paths whose first decisions spell k
     stack = [([], None)]
